@@ -20,4 +20,8 @@ CHECKS = {
    technique='stateless schedule exploration of real threads under a baton scheduler (all interleavings / preemption-bounded DFS with prefix replay) + explicit-state BFS over parse histories with full engine snapshots',
    text='Histories: BFS over all sequences of parses (valid, lexically invalid, grammatically invalid texts) on one engine to the fixpoint of the complete lexer+parser snapshot, for the default, delegate and legacy engines; every transition must equal the fresh-engine outcome of its text. Schedules: 2-3 real threads parsing on one engine with scheduling points before every Lexer.input/token/clone: all interleavings for short texts, all schedules within a stated preemption bound otherwise, plus every line-granularity single-preemption schedule for selected pairs and the yaql.eval module path. Exhaustive within those bounds.',
    note='Trusted: the baton scheduler serialises threads (switches inside one source line / C-level races are not modelled); hooks only yield; violations are replayed twice on a fresh engine before being reported.'),
+ 'C17': dict(engine='E2-bfs', design_ref='DESIGN.md section 4 C17',
+   technique='explicit-state breadth-first search over operation histories on real context objects (histories replayed from scratch, states deduplicated by complete snapshots), every transition judged against a flattened-layers reference model',
+   text='All histories of {new root, child, MultiContext, LinkedContext, set, delete, register (+-exclusive), delete_function} within three node/operation/depth profiles are executed on fresh real contexts; after every transition every observable (read of 4 spellings of names, membership, keys, get_functions, collect_functions) of every context in the forest is compared with models/layers.py. Complete below the stated bounds (<=5 contexts, depth 6 quick / 7 thorough).',
+   note='Trusted: models/layers.py (written from the docs; delete_function clearing exclusivity is taken from the code, DESIGN A.4); snapshots cover every attribute of the real objects.'),
 }
